@@ -140,6 +140,8 @@ fn alphabet_plain(name: &str) -> Alphabet {
         "full3b" => build_alphabet("full3b", n3, &[None, Some(1)], &[NAN_BITS, f(1.0)], false, false, false, true),
         // slices: W = weights only, A = attributes only
         "sliceW3" => build_alphabet("sliceW3", n3, &[None], &[f(1.0), f(2.0)], false, false, false, false),
+        // WA = real weights and edge attribute payloads together (same pair, same weight, different payload)
+        "sliceWA2" => build_alphabet("sliceWA2", n2, &[None], &[f(1.0), f(2.0)], true, false, false, false),
         "sliceA2" => build_alphabet("sliceA2", n2, &[None, Some(1), Some(2)], &[NAN_BITS], true, false, false, false),
         // uniform weight alphabets (C03, C09)
         "w2" => build_alphabet("w2", n2, &[None], &[f(1.0), f(2.0), f(3.0)], false, false, false, false),
